@@ -30,6 +30,7 @@ type c09Inst struct {
 	goneTx  map[string]bool      // tx hashes seen in removed blocks
 	lastTxs []pb.Transaction
 	ibtpIdx uint64
+	bfIdx   uint64
 	lastErr error
 	// the last replacement of an existing height: hash obtained by the executor's own rollback
 	// path and by the reference (explicit rollback + restart + execution)
@@ -57,6 +58,10 @@ func (in *c09Inst) mkTxs(kind string) []pb.Transaction {
 		case "ibtp":
 			in.ibtpIdx++
 			ib := &pb.IBTP{From: fix.FullID(fix.ChainA, fix.Svc1), To: fix.FullID(fix.ChainB, fix.Svc2), Index: in.ibtpIdx, TimeoutHeight: 10}
+			txs = append(txs, fix.IBTPTx(fix.KA, w.N.Next(fix.KA), ib, fix.GoodProof))
+		case "bfibtp": // request to a destination that blacklists the source: recorded as begin-failed (listed for the source, not valid)
+			in.bfIdx++
+			ib := &pb.IBTP{From: fix.FullID(fix.ChainA, fix.Svc3), To: fix.FullID(fix.ChainB, fix.Svc2), Index: in.bfIdx, TimeoutHeight: 10}
 			txs = append(txs, fix.IBTPTx(fix.KA, w.N.Next(fix.KA), ib, fix.GoodProof))
 		case "badibtp":
 			ib := &pb.IBTP{From: fix.FullID(fix.ChainA, fix.Svc1), To: fix.FullID(fix.ChainB, fix.Svc2), Index: in.ibtpIdx + 5, TimeoutHeight: 10}
@@ -401,7 +406,7 @@ func (in *c09Inst) key() string {
 
 func C09(c *mc.Ctx) {
 	depth := 4
-	kinds := []string{"empty", "t", "ibtp", "t+ibtp+fail", "looksame"}
+	kinds := []string{"empty", "t", "ibtp", "t+ibtp+fail", "looksame", "bfibtp+ibtp"}
 	if !c.Quick() {
 		depth = 6
 		kinds = append(kinds, "ibtp+ibtp+t", "badibtp", "fail")
